@@ -317,3 +317,76 @@ Proof.
   cbv beta iota zeta delta [bind]. change (32 * 32)%nat with 1024%nat in C. rewrite <- Hlen in C. change (0 * 32)%nat with 0%nat in C.
   apply cleared_all in C. rewrite C, Hlen. reflexivity.
 Qed.
+
+(* ================================================================== arrayContainer.Add: found / insertion / conversion to a bitmap *)
+Local Opaque g_bitmapContainer_setZero g_Bitmap_add.
+
+(* the elements are uint16 (the conversion indexes a 1024-word bitmap with them) *)
+Definition u16 (x : N) : Prop := (x < 65536)%N.
+Lemma u16_widx x : u16 x -> (widx x < 1024)%nat.
+Proof. unfold u16. rewrite widx_div. intros H. assert (x / 64 < 1024)%N by (apply N.div_lt_upper_bound; lia). lia. Qed.
+
+(* one iteration of  for _, v := range buf { newContainer.add(uint(v)) }  over the list l, for a packing pk of (counter, words) *)
+Ltac addall_iter l :=
+  let i := fresh "i" in let ws := fresh "ws" in let H := fresh in
+  intros i ws H; open_iter; fold (of_bm ws); go;
+  destruct (Nat.ltb_spec i (length l)); cbv beta iota zeta delta [bind]; [|reflexivity];
+  go; rewrite ?code_Bitmap_add; repeat (break1; go); finish.
+Ltac addall_shape pk l ws0 :=
+  match goal with |- context [while ?f ?c ?b ?p ?s] =>
+    let Hit := fresh "Hit" in let E := fresh "E" in
+    assert (Hit : forall i ws, (i <= length l)%nat ->
+              iter1 c b p (pk i ws) =
+              if (i <? length l)%nat
+              then (if (widx (nth i l 0%N) <? length ws)%nat then Ret (inl (pk (S i) (set_bit ws (nth i l 0%N)))) else Panic)
+              else Ret (inr (inl (pk i ws)))) by (addall_iter l);
+    assert (E := addall_while pk c b p l Hit (length l) 0%nat f ws0);
+    cbn [skipn] in E;
+    match type of E with _ -> _ -> _ -> _ = ?rhs => replace (while f c b p s) with rhs by (symmetry; apply E; [lia | lia | assumption]) end;
+    clear Hit E
+  end.
+
+Theorem code_arrayContainer_Add : forall fuel v x buf mem,
+  len_ok v -> (length v < fuel)%nat -> (32 < fuel)%nat -> (length buf < fuel)%nat ->
+  Forall u16 v -> Forall u16 buf -> u16 x -> length mem = N.to_nat bmp_words ->
+  g_arrayContainer_Add fuel (of_arr v) (Z.of_N x) (zl buf) (zl mem) =
+  Ret (let '(c', ok, buf') := c_add (Arr v) x buf in
+       (of_arr (match c' with Arr v' => v' | Bmp _ => v end), (zl buf', (of_cont c', ok)))).
+Proof.
+  intros fuel v x buf mem Hv Hf1 Hf2 Hf3 Uv Ub Ux Hmem.
+  open_code. rewrite code_search by assumption. cbv beta iota zeta delta [bind].
+  cbv beta iota zeta delta [c_add a_found]. pose proof (search_le v x) as Hp. set (p := search v (lenN v) x) in *.
+  array_go.
+  (* pos < len(values) && values[pos] == x *)
+  destruct (N.ltb_spec p (lenN v)) as [Hlt|Hge]; cbn [andb]; cbv beta iota; rewrite ?eqb_of_N;
+    [destruct (N.eqb_spec (nthN v p) x) as [Heq|Hne]; cbv beta iota; [reflexivity|] | ].
+  all: match goal with |- context [Z.of_N (lenN ?vv) <? ?k] => change k with (Z.of_N arr_max) end;
+       rewrite ltb_of_N; match goal with |- context [(lenN ?vv <? arr_max)%N] => destruct (N.ltb_spec (lenN vv) arr_max) as [Hmax|Hmax] end.
+  (* append(values, 0); copy(values[pos+1:], values[pos:]); values[pos] = x *)
+  1,3: set (q := N.to_nat p); replace (Z.of_N p) with (Z.of_nat q) by lia; replace (Z.of_nat q + 1) with (Z.of_nat (S q)) by lia;
+       assert (Hq : (q <= length v)%nat) by (rewrite lenN_length in *; lia);
+       assert (Hl : length (zl v ++ [0]) = S (length v)) by (rewrite app_length, zl_length; cbn [length]; lia);
+       rewrite m_slice_from by lia; unfold zlen; rewrite m_copy_tail by lia;
+       rewrite m_set_nat by (rewrite app_length, firstn_length, gocopy_length, skipn_length; lia);
+       rewrite insert_by_copy by (rewrite zl_length; lia);
+       rewrite insert_at_eq; fold q; unfold of_cont, of_arr; rewrite zl_app, zl_cons, zl_firstn, zl_skipn; reflexivity.
+  (* the conversion: copy(buf, values); t := the array's memory; setZero; add every buf value, then x; length = 4097 *)
+  all: rewrite copy_all_zl; cbv beta iota zeta; set (buf' := firstn (length buf) v ++ skipn (length v) buf);
+       assert (Hlv : (0 < length v)%nat) by (rewrite lenN_length in Hmax; unfold arr_max in Hmax; lia);
+       rewrite m_get_zl; dec_Z; cbv beta iota;
+       rewrite N.leb_refl; dec_Z; cbv beta iota; rewrite firstn_all2 by (rewrite lenN_length; lia);
+       match goal with |- context [g_bitmapContainer_setZero ?f ?b] => change b with (of_bits {| words := mem; cached := 0 |}) end;
+       rewrite code_setZero by assumption; cbv beta iota; open_code;
+       assert (Hb' : Forall (fun y => (widx y < length (repeat 0%N (N.to_nat bmp_words)))%nat) buf')
+         by (rewrite repeat_length; apply Forall_impl with (P := u16); [intros a Ha; apply u16_widx, Ha|];
+             apply Forall_app; split; [apply Forall_firstn_N, Uv | apply Forall_skipn_N, Ub]);
+       assert (Hlb : (length buf' < fuel)%nat)
+         by (unfold buf'; rewrite app_length, firstn_length, skipn_length; lia).
+  all: first [ addall_shape (fun (i : nat) (ws : list N) => (Z.of_nat i, mkBits 0 (mkBitmap (zl ws)))) buf' (repeat 0%N (N.to_nat bmp_words))
+             | addall_shape (fun (i : nat) (ws : list N) => (mkBits 0 (mkBitmap (zl ws)), Z.of_nat i)) buf' (repeat 0%N (N.to_nat bmp_words)) ];
+       cbv beta iota;
+       match goal with |- context [g_Bitmap_add ?b _] => change b with (of_bm (fold_left set_bit buf' (repeat 0%N (N.to_nat bmp_words)))) end;
+       rewrite code_Bitmap_add, fold_set_bit_len, repeat_length;
+       pose proof (u16_widx x Ux); change (N.to_nat bmp_words) with 1024%nat; decide_cmp;
+       unfold convert; fold buf'; cbv beta iota zeta; rewrite fold_left_app; reflexivity.
+Qed.
